@@ -1072,6 +1072,9 @@ func (ev *Env) evalCall(x *ECall) Value {
 		ch := ev.asScalar(arg(0))
 		return Scalar{"(select " + fc.compTerm(ev.cur(), "CH!cap", "(Array Int Int)") + " " + ch.T + ")", "Int", nil}
 	case "spawns":
+		if ev.scope != nil {
+			ev.fail("spawns() counts events of the callee's own activation and cannot be used at a call site")
+		}
 		// spawns(F): number of `go F(...)` statements executed
 		nm := x.Args[0].String()
 		st := ev.cur()
@@ -1080,6 +1083,9 @@ func (ev *Env) evalCall(x *ECall) Value {
 		}
 		return Scalar{"0", "Int", nil}
 	case "calls":
+		if ev.scope != nil {
+			ev.fail("calls() counts events of the callee's own activation and cannot be used at a call site")
+		}
 		id, ok := x.Args[0].(*EIdent)
 		nm := ""
 		if ok {
